@@ -113,6 +113,8 @@ def template(layout, style):
     name = ("" if tag_in_dir or notag else "{tag}_") + START
     if style == "fullend":
         name += "-" + END
+    elif style == "partialend":
+        name += "-{end_hour}{end_minute}{end_second}"      # the end takes its date from the start, +1 day if it would precede it
     name += ".dat"
     return "/".join(chunks + [name])
 
